@@ -266,7 +266,7 @@ class Interp:
         self.uncaught = None     # text of a library exception that escaped the function interpreted at top level
         self.track_xr = False    # keep expression trees of arithmetic/comparisons (Arr.xr) and log reductions over them
         self.xr_log = []         # (result poly, kind, tree of the reduced argument)
-        self.exact_le = False    # True: a <= b is kept exact (not identified with a < b); used when ties are in the quantifier
+        self.exact_le = True     # True: a <= b is kept exact (not identified with a < b); used when ties are in the quantifier
 
     # ------------------------------------------------------------------ calls
     def validator_guards(self, fi, args, kwargs, node=None):
@@ -2758,6 +2758,8 @@ class Interp:
         if root in ('numpy', 'np') and last == 'memmap' and 'shape' in kw:
             # a fresh zero-initialised buffer of the given shape (storage class is not modelled)
             return self.libcall('numpy.zeros', [kw['shape']], {}, e, mod)
+        if root in ('numpy', 'np') and last == 'frombuffer' and args and isinstance(args[0], Foreign) and hasattr(args[0], 'sl_frombuffer'):
+            return args[0].sl_frombuffer(self, kw, e)          # the values a block of raw bytes holds, flat
         if root in ('numpy', 'np') and last == 'fromfile' and args and isinstance(args[0], Foreign):
             # the next values of a binary file, as a flat array (fewer than asked for, without an error, when the file ends first)
             r_ = args[0].sl_method(self, 'raw_read_array', [kw.get('count', args[2] if len(args) > 2 else None)], {}, e)
